@@ -295,11 +295,16 @@ EXPECT = ["C20.cached_fields_follow_assignments_after_initialisation", "C20.cons
           "C20.calibrated_model_reprices_the_black_scholes_target", "C20.input_model_untouched"]
 
 
+# reference replays run when the symbolic run of a harness ends in an exception of the code under analysis (see runner.run_check)
+ERROR_REPLAYS = {"calibrate.HEM": (replay_calibration, {"model": "HEM"}), "calibrate.CGMY": (replay_calibration, {"model": "CGMY"}),
+                 "calibrate.MERTON": (replay_calibration, {"model": "MERTON"}), "calibrate.VG": (replay_calibration, {"model": "VG"})}
+
+
 def main(tier):
     bounds = {"parameters": "HEM, Merton, CGMY, VG, Black-Scholes parameter classes; assignment sequences of length <= 2 (quick) / 3 (thorough) over distinct fields, admissible symbolic values",
               "calibration": "run_default_calibration (-> calibrate_model_parameter_to_atm_call -> calibrate_model_parameter) for HEM (sigma) and CGMY (c) on the default models",
               "outside": "that the COS series actually reprices to tolerance and Brent's iterations (contract stubs; see C18); Merton / VG default calibrations (complex exp / log of a symbolic argument)"}
-    return run_check(PID, tier, harnesses(tier), expect=EXPECT, bounds=bounds,
+    return run_check(PID, tier, harnesses(tier), expect=EXPECT, error_replays=ERROR_REPLAYS, bounds=bounds,
                      assumptions=COMMON_ASSUMPTIONS + ["brentq contract: some root inside the bracket, ValueError when the end values have the same sign",
                                                        "COS price = uninterpreted function of the observable parameter state (fields, cached fields, omega, simulation drift) of the model given to the pricer",
                                                        "gamma, pow as uninterpreted functions"])
